@@ -55,19 +55,22 @@ fn record_profile(out: &mut Out, game: &tree::G, strat: &Strategies<String, Stri
                             .collect()
                     };
                     events += 1;
+                    let mut total = 0.0f64;
                     loop {
                         out.line(&json!({"e": "ilen", "v": inner.len()}));
                         events += 1;
                         match inner.next() {
                             None => {
-                                out.line(&json!({"e": "inext", "kind": "none"}));
+                                let dev = ((total - 1.0) * 1e13).round().clamp(-1e9, 1e9) as i64;
+                                out.line(&json!({"e": "inext", "kind": "none", "dev": dev}));
                                 out.line(&json!({"e": "ilen", "v": inner.len()}));
                                 let again = inner.next().is_none();
-                                out.line(&json!({"e": "inext", "kind": if again { "none" } else { "resurrected" }}));
+                                out.line(&json!({"e": "inext", "kind": if again { "none" } else { "resurrected" }, "dev": 0}));
                                 events += 3;
                                 break;
                             }
                             Some((act, p)) => {
+                                total += p;
                                 let j = acts.iter().position(|a| a == act).map_or(0, |i| i + 1);
                                 out.line(&json!({"e": "inext", "kind": "some", "j": j, "p": util::token(p),
                                     "lo": util::micro_floor(p), "hi": util::micro_ceil(p)}));
@@ -148,6 +151,27 @@ pub fn record(args: &Args) {
             };
             if let Ok(strat) = game.from_named(named) {
                 events += record_profile(&mut out, &game, &strat, "imported-tiny");
+                runs += 1;
+            }
+        }
+        // imported weights that are almost, but not exactly, normalised (ten-digit decimals; a distribution
+        // scaled by 1 + 3e-10): the stored profile must still be weight / total
+        for variant in 0..2 {
+            let base = tree::named(&t, &tree::gen_profile(&mut r, &t, 2, false));
+            let named: [Vec<(String, Vec<(String, f64)>)>; 2] = base.map(|side| {
+                side.into_iter()
+                    .map(|(info, acts)| {
+                        let tot: f64 = acts.iter().map(|(_, w)| w).sum();
+                        let acts = acts
+                            .into_iter()
+                            .map(|(a, w)| (a, if variant == 0 { ((w / tot) * 1e10).floor() / 1e10 } else { w / tot * (1.0 + 3e-10) }))
+                            .collect();
+                        (info, acts)
+                    })
+                    .collect()
+            });
+            if let Ok(strat) = game.from_named(named) {
+                events += record_profile(&mut out, &game, &strat, "imported-near-one");
                 runs += 1;
             }
         }
